@@ -352,6 +352,7 @@ func superviseMain(args map[string]string) {
 	defer os.RemoveAll(hashDir)
 
 	var mu sync.Mutex
+	var autoSamples []string
 	res := RunResult{Prop: prop, Tier: tier}
 	res.Seed, _ = strconv.ParseUint(seed, 10, 64)
 	res.Stats.Counters = map[string]int{}
@@ -416,6 +417,15 @@ func superviseMain(args map[string]string) {
 							if len(parts) > 3 {
 								lastHex = parts[3]
 							}
+							if lastIdx%9973 == 7 || lastIdx < 3 {
+								// keep a few announced cases as samples in case the property code records none itself
+								mu.Lock()
+								if len(autoSamples) < 8 {
+									b, _ := hex.DecodeString(lastHex)
+									autoSamples = append(autoSamples, fmt.Sprintf("case %d (%s): %q", lastIdx, lastDesc, trunc(string(b), 160)))
+								}
+								mu.Unlock()
+							}
 						case "F":
 							var f Finding
 							_ = json.Unmarshal([]byte(strings.SplitN(ln, "\t", 2)[1]), &f)
@@ -469,6 +479,9 @@ func superviseMain(args map[string]string) {
 	}
 	wg.Wait()
 
+	if len(res.Stats.Samples) == 0 {
+		res.Stats.Samples = autoSamples
+	}
 	// merge distinct hashes
 	set := map[uint64]struct{}{}
 	files, _ := filepath.Glob(filepath.Join(hashDir, "*.hashes"))
